@@ -42,6 +42,9 @@ type Cfg struct {
 	// Memory_Free exactly as client/common/config.go does by default): a freed record's slot is handed out again at once.
 	// The sequential reference always uses the Go heap (where a stale alias of a freed record still reads the old bytes).
 	Alloc bool `json:"alloc,omitempty"`
+	// UI: the replay plays the main loop of client/main.go with the real text UI (client/usif/textui.MainThread) on a piped
+	// keyboard and a seeded operator typing commands, most of them while a block is being committed (operator.go)
+	UI bool `json:"ui,omitempty"`
 }
 
 var goHeapMalloc, goHeapFree = utxo.Memory_Malloc, utxo.Memory_Free
@@ -157,6 +160,8 @@ type WorkerOut struct {
 	CreateFail       string   `json:"createfail,omitempty"`
 	CreateFailStacks string   `json:"createfail_stacks,omitempty"`
 	Timing           []string `json:"timing"`
+	// replays with the text UI: a typed command never completed / the UI goroutine did not end
+	UIStuck string `json:"ui_stuck,omitempty"`
 }
 
 // CommitCase: one block whose commitTxs outcome is compared with the Lean fan-out model.
@@ -172,15 +177,16 @@ type CommitCase struct {
 // ------------------------------------------------------------------------------------ recorder
 
 type recorder struct {
-	mu      sync.Mutex
-	events  []string
-	ctr     uint64
-	seed    uint64
-	dir     string
-	cfg     string
-	snaps   []Snap
-	want    map[string]Res    // tip hash -> reference result at that tip
-	onPoint func(name string) // directed scenarios: forced schedule
+	mu       sync.Mutex
+	events   []string
+	ctr      uint64
+	seed     uint64
+	dir      string
+	cfg      string
+	snaps    []Snap
+	want     map[string]Res    // tip hash -> reference result at that tip
+	onPoint  func(name string) // directed scenarios: forced schedule
+	operator func(name string) // replays with the text UI: the operator may type a command here
 }
 
 func mix(a, b uint64) uint64 {
@@ -212,6 +218,9 @@ func (rc *recorder) hook(name string) {
 	rc.ev(name)
 	if rc.onPoint != nil {
 		rc.onPoint(name)
+	}
+	if rc.operator != nil {
+		rc.operator(name)
 	}
 	rc.perturb()
 }
@@ -650,6 +659,11 @@ func replay(sc *scenario, cfg Cfg, out *WorkerOut) {
 	vhook.Set(rc.hook)
 	defer rc.slowUndoWriter()()
 	rp := Replay{Cfg: cfg}
+	var ui *uiSession
+	if cfg.UI {
+		ui = startUI(k.Ch, cfg.Perturb)
+		rc.operator = ui.at
+	}
 	stop := make(chan bool)
 	var auxwg sync.WaitGroup
 	if cfg.Aux {
@@ -665,7 +679,14 @@ func replay(sc *scenario, cfg Cfg, out *WorkerOut) {
 				default:
 				}
 				time.Sleep(time.Duration(50+g.Intn(600)) * time.Microsecond)
-				switch g.Intn(3) {
+				c := g.Intn(3)
+				if cfg.UI && c == 1 {
+					// with the operator's direct Save() on the main goroutine (no db.Mutex) an AbortWriting on ANOTHER goroutine is a
+					// combination the node does not have (every call site of AbortWriting is on the main goroutine: generated fact
+					// mainOnlyCallSites) - its writingDone.Wait would run concurrently with Save's writingDone.Add
+					c = 0
+				}
+				switch c {
 				case 0:
 					rc.ev("x:hurry")
 					db.HurryUp()
@@ -686,7 +707,16 @@ func replay(sc *scenario, cfg Cfg, out *WorkerOut) {
 			}
 		}()
 		for i := range sc.ops {
+			if ui != nil {
+				ui.betweenOps(i)
+				if sc.ops[i].Kind == "block" {
+					atomic.StoreInt32(&ui.inCommit, 1)
+				}
+			}
 			got := execOp(k, &sc.ops[i], rc, false)
+			if ui != nil {
+				atomic.StoreInt32(&ui.inCommit, 0)
+			}
 			if got != sc.ref[i] {
 				out.Diffs = append(out.Diffs, Diff{Cfg: cfg.Name, Op: i, Note: sc.ops[i].Kind + " " + sc.ops[i].Note, Ref: sc.ref[i], Got: got})
 				if len(out.Diffs) > 20 {
@@ -695,6 +725,17 @@ func replay(sc *scenario, cfg Cfg, out *WorkerOut) {
 			}
 		}
 	}()
+	if ui != nil {
+		ui.finish()
+		ui.hmu.Lock()
+		for k, v := range ui.hist {
+			out.Hist[k] += v
+		}
+		ui.hmu.Unlock()
+		if ui.stuck != "" && out.UIStuck == "" {
+			out.UIStuck = cfg.Name + ": " + ui.stuck
+		}
+	}
 	close(stop)
 	auxwg.Wait()
 	tip, _ := k.Tip()
@@ -1058,7 +1099,7 @@ func workerMain(args []string) {
 	seed := fs.Uint64("seed", 1, "")
 	tier := fs.String("tier", "quick", "")
 	outp := fs.String("out", "", "")
-	only := fs.String("only", "", "run only this part: chain | resave | compr | createfail | recycle | bigsnap")
+	only := fs.String("only", "", "run only this part: chain | resave | compr | createfail | recycle | bigsnap | operator")
 	shard := fs.Int("shard", 0, "")
 	fs.Parse(args)
 	out := &WorkerOut{Seed: *seed, Hist: map[string]int{}}
@@ -1133,6 +1174,38 @@ func workerMain(args []string) {
 		// parks (the extreme of "the new goroutine is late": Save() has returned, the saver has not executed anything yet)
 		replay(sc, Cfg{Name: "u-p1-unperturbed", Procs: 1, TargetU: int64(g.Pick(0, 20000))}, out)
 		out.Hist["replay:procs=1-unperturbed"]++
+	}
+	if part("operator") {
+		// the node with its text UI: the main loop serves usif.UiChannel between blocks, the real textui.MainThread dispatches
+		// what a seeded operator types (operator.go)
+		t0 := time.Now()
+		sc, cases := genScenario(mix(*seed, 3000+uint64(*shard)), thorough, gt, false, false)
+		out.Timing = append(out.Timing, fmt.Sprintf("operator-gen %.1fs", time.Since(t0).Seconds()))
+		if out.Scenario == "" {
+			out.Scenario = "operator"
+			out.Ref = sc.ref
+			out.Commit = cases
+			for _, op := range sc.ops {
+				out.Ops = append(out.Ops, op.Kind+" "+op.Note)
+			}
+		}
+		for k, v := range sc.hist {
+			out.Hist[k] += v
+		}
+		g := vlib.NewRng(mix(*seed, 3077+uint64(*shard)))
+		procs := []int{4, 2, 16}
+		n := 3
+		if thorough {
+			procs = []int{4, 2, 16, 1, 8, 3}
+			n = 6
+		}
+		for i := 0; i < n; i++ {
+			cfg := Cfg{Procs: procs[i%len(procs)], Perturb: g.U64() | 1, Aux: i%3 == 2, UI: true}
+			cfg.TargetU = int64(g.Pick(0, 2000, 20000))
+			cfg.Name = fmt.Sprintf("o%d-p%d-t%d-aux%v-ui", i, cfg.Procs, cfg.TargetU, cfg.Aux)
+			replay(sc, cfg, out)
+			out.Hist[fmt.Sprintf("replay-operator:procs=%d", cfg.Procs)]++
+		}
 	}
 	if part("recycle") {
 		// the client's default memory configuration: UTXO records in the recycling allocator; blocks that free and allocate
